@@ -42,6 +42,8 @@ def op_name(P, k, pc):
         t = P["bodies"][int(k)][int(pc)]
         while t[0] == "block_on" and len(t) > 1:      # `block_on <async op>`: the op that is run
             t = t[1:]
+        if t[0] == "pend_then" and len(t) > 2:          # a leaf future that runs a synchronous op inside its poll
+            return t[2]
         return t[0]
     except Exception:
         return "?"
